@@ -61,7 +61,7 @@ Section Pieces.
     assert (td * i <= stop - start - 1 \/ i = 0) by nia. nia.
   Qed.
 
-  Lemma s_last : stop <= s_ (np - 1) + td.
+  Lemma s_final : stop <= s_ (np - 1) + td.
   Proof. unfold np, numPieces, s_. nia. Qed.
 
   Lemma piece_eq i : i < np ->
@@ -91,7 +91,7 @@ Section Pieces.
 
   Lemma piece_last : snd (piece td start stop (np - 1)) = stop.
   Proof.
-    pose proof np_pos. rewrite piece_eq by lia. cbn [snd]. pose proof s_last.
+    pose proof np_pos. rewrite piece_eq by lia. cbn [snd]. pose proof s_final.
     unfold alignN. destruct (N.ltb_spec (s_ (np - 1) + td + 32) stop); lia.
   Qed.
 
